@@ -220,13 +220,14 @@ var recRelay = ev.New("C13", "relay",
 		"unless the documented wait rule (or a reply-less upstream) forced success, GET /servers/{s}/stats of both instances = ledger. "+
 		"A fourth close mode ends the session with a reset (SO_LINGER 0) by client or target after bytes were relayed both ways, either after both sides have read everything (statistics exact) "+
 		"or as soon as the client has seen a downlink byte (statistics within [received by the far side, written by the near side]); exactly one session for the right user either way. "+
-		"Evaluation = one connection. Non-trivial: first payload within +-T/2 of the wait deadline on a waiting relay, or one side half-closes first and the other still delivers >0 bytes, or the session is ended by a reset with bytes relayed; distinct key = configuration class + connection class").
+		"Evaluation = one connection. Non-trivial: first payload within +-T/2 of the wait deadline on a waiting relay, or one side half-closes first and the other still delivers >0 bytes, or the session is ended by a reset with bytes relayed, or early first bytes on a waiting relay are followed by more upload after the wait deadline (T+50ms, 2T, 4T: idle-open in between); distinct key = configuration class + connection class").
 	Require("first-payload-near-deadline", "half-close-then-opposite-flows", "failure-reply", "forced-success-reply", "wait-applies",
 		"path:dialled-before-first-bytes", "path:dialled-after-first-bytes", "client-never-sends", "first-exceeds-wait-buffer",
 		"server:socks5", "server:http", "server:none", "server:direct", "server:ss2022",
 		"client:direct", "client:socks5", "client:http", "client:none", "client:ss2022",
 		"target:ok-ip", "target:ok-domain", "target:refused", "target:nxdomain", "target:router-reject-domain",
 		"routed:chain", "routed:direct-beside-chain",
+		"early-first-bytes-then-upload-after-wait-deadline",
 		"session-ended-by-reset-with-bytes-relayed", "reset-by:client", "reset-by:target", "reset:after-everything-was-read", "reset:bytes-possibly-in-flight")
 
 func workDir(t *testing.T) string {
@@ -298,6 +299,26 @@ func TestReplayRelay(t *testing.T) {
 	b, err := os.ReadFile(p)
 	if err != nil {
 		t.Fatal(err)
+	}
+	var probe struct {
+		Policy string `json:"policy"`
+	}
+	if json.Unmarshal(b, &probe) == nil && probe.Policy != "" { // a client-group plan
+		var g groupPlan
+		if err := json.Unmarshal(b, &g); err != nil {
+			t.Fatalf("not a C13 client-group plan: %v", err)
+		}
+		res := runGroupCase(g, workDir(t))
+		if res.violation != "" && res.liveness {
+			res = runGroupCase(g, workDir(t))
+		}
+		if res.harnessErr != "" {
+			t.Skipf("environment: %s", res.harnessErr)
+		}
+		if res.violation != "" {
+			t.Fatalf("%s\n  case: %s", res.violation, js(g))
+		}
+		return
 	}
 	var c casePlan
 	if err := json.Unmarshal(b, &c); err != nil {
